@@ -294,7 +294,12 @@ def check_cli(case):
                 seqs += f["wf"]["seqs"]
             ne = [(n, s) for n, s in zip(names, seqs) if s]
             pn, pr = formats.parse_any(fmt, text)
-            bad = oracle.integrity([n for n, _ in ne], [s for _, s in ne], pn, pr)
+            want_names = [n for n, _ in ne]
+            if fmt in ("msf", "clu"):
+                # the block formats carry at most MSA_NAME_LEN-1 = 255 characters of a name
+                want_names = [n[:255] for n in want_names]
+                pn = [n[:255] for n in pn]
+            bad = oracle.integrity(want_names, [s for _, s in ne], pn, pr)
             if bad:
                 return engine.violation({"what": "status 0 but the output is not an alignment of the input: %s" % bad, "args": args[:12]}, classes=cl)
         return engine.ok(True, cl + ["aligned"], {"args": args[:10], "files": [f["body"][:80] for f in case["files"]], "rc": 0})
